@@ -18,7 +18,7 @@ func TestABCISmoke(t *testing.T) {
 		if bp != nil {
 			t.Fatal(bp, bp.Stack)
 		}
-		txb, err := c.SignTx(Acc(0), 2_000_000, storagetypes.NewMsgBuyStorage(Acc(0).Bech, Acc(0).Bech, 30, 3_000_000_000, Denom))
+		txb, err := c.SignTx(Acc(0), 2_000_000, &storagetypes.MsgBuyStorage{Creator: Acc(0).Bech, ForAddress: Acc(0).Bech, DurationDays: 30, Bytes: 3_000_000_000, PaymentDenom: Denom})
 		if err != nil {
 			t.Fatal(err)
 		}
@@ -27,7 +27,7 @@ func TestABCISmoke(t *testing.T) {
 			fmt.Println(r.Code, r.Log, r.GasUsed)
 		}
 		// signed by somebody else than the creator
-		txb2, _ := c.SignTx(Acc(1), 2_000_000, storagetypes.NewMsgBuyStorage(Acc(0).Bech, Acc(0).Bech, 30, 3_000_000_000, Denom))
+		txb2, _ := c.SignTx(Acc(1), 2_000_000, &storagetypes.MsgBuyStorage{Creator: Acc(0).Bech, ForAddress: Acc(0).Bech, DurationDays: 30, Bytes: 3_000_000_000, PaymentDenom: Denom})
 		r2 := c.Deliver(txb2)
 		if i < 1 {
 			fmt.Println("foreign signer:", r2.Code, r2.Log)
